@@ -21,7 +21,8 @@ RULE = ('Generated: (a) nested dictionaries (depth <= 4, identifier keys; values
         'at the three output sizes; (c) models of drawn component combinations (temperature, gas profile and '
         'contribution types, parameter values) written with model.write and rebuilt with '
         'taurex_hdf5_to_model.  Non-trivial = (a) >=2 levels with an array and a string list, (b) binned '
-        'output with optical depths, (c) >=2 non-default component types; distinct by case hash.')
+        'output with optical depths, (c) >=2 non-default component types; distinct by case hash.'
+        ' In the spectrum part the same binner then describes a second result on another native grid of the same length.')
 ASSUMPTIONS = [
     'string lists are stored in a fixed S64 column: entries longer than 64 bytes or non-ASCII are outside the file format and not generated',
     'lists mixing strings and numbers are not generated (the writer routes any list containing a string to the string column)',
